@@ -66,7 +66,7 @@ def gen(prop, stream, tier, avoid):
         objs.append(spec)
     use_cont = kn.chance(0.6)
     nops = kn.pick([3, 4, 5, 6, 8, 10, 14, 20] + ([30, 40] if tier == "thorough" else []))
-    W = [("sample", 3), ("tessellate", 3), ("read", 4), ("edit", 1.5), ("quad", 0.7), ("export", 3), ("bad_tessellate", 0.5), ("subeval", 0.6), ("direct", 0.8)]
+    W = [("sample", 3), ("tessellate", 3), ("read", 4), ("edit", 1.5), ("quad", 0.7), ("export", 3), ("bad_tessellate", 0.5), ("subeval", 0.6), ("direct", 0.8), ("add_trim", 0.5)]
     if use_cont:
         W += [("cadd", 2.5), ("csample", 1), ("ctess", 2.5), ("cread", 2.5), ("ctessellator", 0.6)]
     W = [(k, w * kn.uniform(0.4, 1.4)) for k, w in W]
@@ -92,6 +92,10 @@ def gen(prop, stream, tier, avoid):
         elif k == "direct":
             op["spacing"] = rng.randrange(6)
             op["via"] = rng.pick(["class", "class", "function"])
+        elif k == "add_trim":
+            op["trim"] = _gen_trim(rng)
+            op["n"] = rng.randint(12, 16)
+            op["how"] = rng.pick(["add_trim", "add_trim", "setter"])
         elif k == "subeval":
             # the caller evaluates part of the domain only (documented: evaluate(start_u=..., stop_u=..., ...)); in 1/16 of the domain
             a_, b_ = sorted(rng.sample(range(0, 17), 2))
@@ -431,6 +435,21 @@ def _cross(a, b):
 # ---------------------------------------------------------------------------------------------
 # execution
 
+def _trim_curve(g, t):
+    from geomdl import freeform
+    if t["type"] == "spline":
+        c = g.BSpline.Curve()
+        c.degree = 1
+        c.ctrlpts = [list(p) for p in t["points"]]
+        npt = len(t["points"])
+        c.knotvector = [0.0, 0.0] + [i / float(npt - 1) for i in range(1, npt - 1)] + [1.0, 1.0]
+        c.delta = 0.01
+    else:
+        c = freeform.Freeform()
+        c.evaluate(points=[list(p) for p in t["points"]])
+    return c
+
+
 def _mesh_of(s, id_offset=0):
     V = [[v.id, list(v.uv), list(v.data)] for v in s.vertices]
     F = [list(f.vertex_ids) for f in s.faces]
@@ -468,18 +487,7 @@ def run(script, ctx):
         o.sample_size = 14 if spec.get("trim") else 4      # fine enough for cells deep inside / well outside a trim to exist
         st = SurfState(o, spec)
         if st.trim:
-            t = st.trim
-            if t["type"] == "spline":
-                c = g.BSpline.Curve()
-                c.degree = 1
-                c.ctrlpts = [list(p) for p in t["points"]]
-                npt = len(t["points"])
-                c.knotvector = [0.0, 0.0] + [i / float(npt - 1) for i in range(1, npt - 1)] + [1.0, 1.0]
-                c.delta = 0.01
-            else:
-                c = freeform.Freeform()
-                c.evaluate(points=[list(p) for p in t["points"]])
-            o.trims = [c]
+            o.trims = [_trim_curve(g, st.trim)]
             o.tessellator = g.tessellate.TrimTessellate()
         elif spec.get("trim_tessellator_without_trims"):
             o.tessellator = g.tessellate.TrimTessellate()
@@ -567,6 +575,32 @@ def run(script, ctx):
             ctx.log("edit", i)
             ctx.ops_executed += 1
             touched(st)
+        elif k == "add_trim":
+            # a trim curve is added to a surface that uses the trim-aware tessellator and has ALREADY been tessellated: the mesh
+            # read afterwards omits the trimmed region (un-normalised surfaces are left alone: their trims live on another domain)
+            if st.trim or not isinstance(s.tessellator, g.tessellate.TrimTessellate) or st.spec.get("aL"):
+                ctx.ops_skipped += 1
+                continue
+            s.sample_size = op["n"]
+            _ = _mesh_of(s)
+            c_ = _trim_curve(g, op["trim"])
+            if op["how"] == "setter":
+                s.trims = [c_]
+            else:
+                s.add_trim(c_)
+            st.trim = op["trim"]
+            if not s.tessellator.is_tessellated():
+                st.spacing = 1
+            else:
+                st.spacing = 1      # the mesh read before the trim was added had the default spacing
+            nu, nv = s.sample_size
+            V, F = _mesh_of(s)
+            ctx.log("add_trim", i, op["how"], nu, len(V), len(F))
+            ctx.ops_executed += 1
+            ctx.probe("trim_added_to_a_tessellated_surface")
+            check_mesh(ctx, V, F, s, "surface #%d after a trim was added to it (it had been tessellated before, sample size %r)" % (i, (nu, nv)),
+                       dict(op=k, trimmed=True), sample=(nu, nv), trim=st.trim, id_offset=V[0][0] if V else 0, expect_spacing=1)
+            st.tess_before, st.dirty_since = True, False
         elif k == "direct":
             # the tessellation component used on its own, on the sample grid of the surface (documented usage of geomdl.tessellate):
             # nothing re-evaluates the vertices afterwards, the positions are the sample points themselves
